@@ -40,6 +40,9 @@ def table_seeds():
             dets = [dets]
         outcome = '; '.join('%s: %s' % (d_['check'].split()[1], d_['outcome'].split(' (')[0]) for d_ in dets) or 'not run'
         detail = next((d_['replay_detail'] for d_ in dets if d_.get('exit_code') == 1 and d_.get('replay_detail')), '')
+        note = os.path.join(os.path.dirname(p), 'note.txt')
+        if os.path.exists(note):
+            outcome += ' — ' + open(note).read().strip()
         rows.append('| %s | %s | %s | %s | %s |' % (n, m.get('property'), (m.get('needs_to_manifest') or '').replace('\n', ' ').replace('|', '\\|')[:260],
                                                  outcome, detail.replace('|', '\\|')[:200]))
     return '\n'.join(rows)
